@@ -110,10 +110,10 @@ type valueCase struct {
 	JSON  []byte
 }
 
-func strp(s string) *string    { return &s }
-func i64p(i int64) *int64      { return &i }
-func f64p(f float64) *float64  { return &f }
-func boolp(b bool) *bool       { return &b }
+func strp(s string) *string         { return &s }
+func i64p(i int64) *int64           { return &i }
+func f64p(f float64) *float64       { return &f }
+func boolp(b bool) *bool            { return &b }
 func mustJSON(v interface{}) []byte { b, _ := json.Marshal(v); return b }
 
 // valueCases lists the values sent for a type: the two generated fully populated values, the zero
@@ -177,7 +177,7 @@ func builderTools() []*mcp.Tool {
 			mcp.WithArray("a", mcp.Items(strSchema), mcp.MinItems(1), mcp.MaxItems(5), mcp.UniqueItems(true), mcp.Required())),
 		mcp.NewTool("tl_builder_numbers",
 			mcp.WithInteger("max_safe", mcp.Default(int64(1)<<53-1)),
-			mcp.WithInteger("min_safe", mcp.Default(-(int64(1)<<53 - 1))),
+			mcp.WithInteger("min_safe", mcp.Default(-(int64(1)<<53-1))),
 			mcp.WithNumber("tiny", mcp.Default(1e-7)),
 			mcp.WithNumber("huge", mcp.Default(1e21)),
 			mcp.WithNumber("million", mcp.Default(1000000)),
